@@ -143,16 +143,43 @@ def validate(ctx, sd, trace_path, n_events, label, timeout=1200):
     if r.error.startswith("invariant:"):
         report_inv(r)
         return "invariant"
-    if r.error == "postcondition":
-        ln = r.highwater
-        ctx.drifts.append({"what": "%s: line %s of the recorded trace is not a step of the specification: %s" % (label, ln, at(ln))})
-        r2 = ctx.tlc(sd, "Trace_StatePruning", "t_obs.cfg", workers=1, timeout=timeout, count=False,
-                     allow=("invariant", "postcondition"))
-        if r2.error and r2.error.startswith("invariant:"):
-            report_inv(r2)
+    if r.error != "postcondition":
+        return "broken"
+    # the strict pass rejected line `ln`: drift.  (1) observation mode over the whole file, so that the invariants are
+    # still evaluated on every observed state; (2) the strict pass again on the traces after the rejected one.
+    ln = r.highwater
+    ctx.drifts.append({"what": "%s: line %s of the recorded trace is not a step of the specification: %s" % (label, ln, at(ln))})
+    r2 = ctx.tlc(sd, "Trace_StatePruning", "t_obs.cfg", workers=1, timeout=timeout, count=False,
+                 allow=("invariant", "postcondition"))
+    if r2.error and r2.error.startswith("invariant:"):
+        report_inv(r2)
+        return "invariant"
+    all_lines = open(dst).read().splitlines()
+    offset = 0
+    for _ in range(4):
+        if not ln or ln > len(all_lines) - offset:
+            break
+        cur = all_lines[offset:]
+        t = json.loads(cur[ln - 1])["t"]
+        k = ln
+        while k < len(cur) and json.loads(cur[k])["t"] == t:
+            k += 1
+        if k >= len(cur):
+            break
+        offset += k
+        with open(dst, "w") as f:
+            f.write("\n".join(all_lines[offset:]) + "\n")
+        lines = None
+        r = ctx.tlc(sd, "Trace_StatePruning", "t_strict.cfg", workers=1, timeout=timeout, count=False,
+                    allow=("invariant", "postcondition"))
+        report_marks(r)
+        if r.error and r.error.startswith("invariant:"):
+            report_inv(r)
             return "invariant"
-        return "rejected"
-    return "broken"
+        if r.error != "postcondition":
+            break
+        ln = r.highwater
+    return "rejected"
 
 
 SAFE_ASIS = ("VIEW cvars\nINVARIANTS TypeOK Inv_C09_SafetyUnexplained Inv_C09_GcUnexplained Inv_QuietFlushed "
@@ -162,6 +189,16 @@ SAFE_ASIS = ("VIEW cvars\nINVARIANTS TypeOK Inv_C09_SafetyUnexplained Inv_C09_Gc
 def timed(ctx, label, r):
     ctx.notes.append("%s: %d distinct states, %.1fs%s" % (label, r.distinct, r.wall, (" -> " + r.error) if r.error else ""))
     return r
+
+
+def vacuity(ctx, r, q, required):
+    """thorough tier: no action of the specification may have coverage count 0"""
+    if q or not r.ok:
+        return
+    dead = sorted(set(r.coverage_zero) & set(required))
+    if dead:
+        ctx.broken.append("vacuity guard: actions never taken in the exhaustive run: %s" % ", ".join(dead))
+    ctx.cov(vacuity_guard="actions %s all taken" % ", ".join(required) if not dead else "FAILED")
 
 
 def expect_cex(ctx, found, key, r, inv):
@@ -174,9 +211,10 @@ def r1_c09(ctx, sd, q):
     found = {}
     # (a) the code as it is (deviations D1 D2 D3), with and without the repair of D3: live nodes are deleted only
     #     through D3, garbage stays only through D1/D2/D3, the repair removes D3 altogether
-    cfg = mc_cfg(sd, "r1_asis.cfg", inner="MCInner1" if q else "MCInner2", roots=2 if q else 3, rb=2, buf="1, 8",
-                 blocked=1 if q else 2, rest=SAFE_ASIS)
-    timed(ctx, "R1 code as it is", ctx.tlc(sd, "MC_StatePruning", cfg, timeout=3000, coverage=not q))
+    cfg = mc_cfg(sd, "r1_asis.cfg", inner="MCInner1" if q else "MCInner2", roots=2, rb=2, buf="1, 8",
+                 blocked=1, rest=SAFE_ASIS)       # measured: 20 k / 156 k distinct states
+    r = timed(ctx, "R1 code as it is", ctx.tlc(sd, "MC_StatePruning", cfg, timeout=3000, coverage=not q))
+    vacuity(ctx, r, q, ("CommitFresh", "CommitReapply", "Finalize", "RollbackB", "EnterB", "Exit"))
     # (b) D3 breaks the first sentence: TLC must find the counterexample (4 fresh blocks, 2 rollbacks)
     cfg = mc_cfg(sd, "r1_d3s.cfg", f3="FALSE", inner="MCInner1", roots=4, rb=2, buf="8", blocked=1, reapply="FALSE",
                  rest="VIEW cvars\nINVARIANTS Inv_C09_Safety")
@@ -197,8 +235,9 @@ def r1_c09(ctx, sd, q):
     timed(ctx, "R1 repaired D3", ctx.tlc(sd, "MC_StatePruning", cfg, timeout=3000))
     # (e) intended design (no deviation: a buffered operation applies to the entry it was issued for, nothing is
     #     dropped): both sentences hold, also when rolled-back blocks are re-applied
-    cfg = mc_cfg(sd, "r1_intended.cfg", kd="D0", f3="FALSE", inner="MCInner1" if q else "MCInner2", roots=3 if q else 3,
-                 rb=2, buf="8", blocked=1 if q else 2, rest="VIEW cvars\nINVARIANTS TypeOK Inv_C09_Safety Inv_C09_Gc")
+    cfg = mc_cfg(sd, "r1_intended.cfg", kd="D0", f3="FALSE", inner="MCInner1" if q else "MCInner2", roots=3 if q else 2,
+                 rb=2, buf="8", blocked=1 if q else 2,     # measured: 24 k / 31 k
+                 rest="VIEW cvars\nINVARIANTS TypeOK Inv_C09_Safety Inv_C09_Gc")
     timed(ctx, "R1 intended design", ctx.tlc(sd, "MC_StatePruning", cfg, timeout=3000))
 
 
@@ -209,9 +248,10 @@ def r1_c10(ctx, sd, q):
     cfg = mc_cfg(sd, "r1_c10.cfg", inner="MCInner1", data="MCData1", roots=2, rb=0 if q else 1, buf="8", blocked=0,
                  jobs=1, reapply="FALSE", f3="FALSE",
                  rest="VIEW cvars\nINVARIANTS TypeOK Inv_C09_SafetyUnexplained Inv_C10_Complete Inv_C10_Source")
-    timed(ctx, "R1 one job at a time", ctx.tlc(sd, "MC_StatePruning", cfg, timeout=3000, coverage=not q))
+    r = timed(ctx, "R1 one job at a time", ctx.tlc(sd, "MC_StatePruning", cfg, timeout=3000, coverage=not q))
+    vacuity(ctx, r, q, ("CommitFresh", "Finalize", "JobStartAny", "GEnqMainAny", "GEnqDataAny", "GExitAny", "LTake", "LCopyAny", "LFinish"))
     # two jobs: only the named deviations E1 E2 E3
-    cfg = mc_cfg(sd, "r1_c10b.cfg", inner="MCInner1", data="MCData1", roots=1 if q else 2, rb=0, buf="8", blocked=0,
+    cfg = mc_cfg(sd, "r1_c10b.cfg", inner="MCInner1", data="MCData1", roots=1, rb=0, buf="8", blocked=0,   # 81 k
                  jobs=2, reapply="FALSE", f3="FALSE",
                  rest="VIEW cvars\nINVARIANTS TypeOK Inv_C09_SafetyUnexplained Inv_C10_CompleteUnexplained Inv_C10_Source")
     timed(ctx, "R1 two jobs", ctx.tlc(sd, "MC_StatePruning", cfg, timeout=6000))
@@ -258,10 +298,10 @@ def run(ctx):
     accepted = 0
     first_trace = None
     # R3: random block histories (+ random snapshot/checkpoint schedules) on the real stack, validated by TLC
-    plan = [("mixed" if c09 else "jobs", 24 if q else 200, 60 if q else 120)]
+    plan = [("mixed" if c09 else "jobs", 24 if q else 120, 60 if q else 100)]
     if c09 and not q:
-        plan.append(("nojobs", 150, 150))
-    nseed = 1 if q else 3
+        plan.append(("nojobs", 80, 120))
+    nseed = 1 if q else 2
     for si in range(nseed):
         for mode, nt, ln in plan:
             tr = ctx.path("trace_%s_%d.ndjson" % (mode, si))
@@ -285,14 +325,18 @@ def run(ctx):
                  snaps="2", cpmod="0, 2", f3="FALSE", blocked=1, jobs=2 if not c09 else 1, reapply="TRUE", log="LogAppend",
                  depth=16, rest="ACTION_CONSTRAINT EmitFull")
     beh = ctx.path("sched.ndjson")
-    g = ctx.tlc(sd, "MC_StatePruning", gen, simulate=40 if q else 800, depth=16, timeout=900, behaviours_out=beh, count=False)
+    g = ctx.tlc(sd, "MC_StatePruning", gen, simulate=40 if q else 400, depth=16, timeout=900, behaviours_out=beh, count=False)
     if g.ok and g.behaviours == 0:
         ctx.broken.append("schedule export produced nothing")
     tr = ctx.path("trace_sched.ndjson")
     r2 = ctx.vh(exe, ["schedules", beh, tr], timeout=1800)
     if r2.rc == 0 and not r2.broken:
         ev = int(r2.stats.get("events", 0))
+        nviol = len(ctx.violations)
         st = validate(ctx, sd, tr, ev, "TLC schedule replay")
+        if r2.stats.get("aborted") and len(ctx.violations) == nviol:
+            ctx.broken.append("the driver had to abort and the recorded trace does not show a violated property: %s"
+                              % "; ".join(r2.stats["aborted"])[:1500])
         if st == "accepted":
             ctx.cov(traces_validated_against_impl=int(r2.stats.get("behaviours", 0)), evaluations=ev,
                     distinct_nontrivial=int(r2.stats.get("distinct", 0)))
